@@ -36,12 +36,28 @@ pub fn style(k: StyleK) -> Style {
         StyleK::Emphasis => Style::Emphasis,
         StyleK::Invalid => Style::Invalid,
         StyleK::Metavar => Style::Metavar,
+        StyleK::Nested | StyleK::NestedEm => Style::Text,
     }
 }
 
 pub fn doc(d: &DocSpec) -> Doc {
     if d.is_plain() {
         return Doc::from(d.0[0].1.as_str());
+    }
+    if d.0.iter().any(|(k, _)| matches!(k, StyleK::Nested | StyleK::NestedEm)) {
+        // built with the incremental API
+        let mut out = Doc::default();
+        for (k, s) in &d.0 {
+            match k {
+                StyleK::Text | StyleK::Metavar => out.text(s),
+                StyleK::Literal => out.literal(s),
+                StyleK::Emphasis => out.emphasis(s),
+                StyleK::Invalid => out.invalid(s),
+                StyleK::Nested => out.doc(&Doc::from(s.as_str())),
+                StyleK::NestedEm => out.em_doc(&Doc::from(s.as_str())),
+            }
+        }
+        return out;
     }
     let v: Vec<(&str, Style)> = d.0.iter().map(|(k, s)| (s.as_str(), style(*k))).collect();
     Doc::from(&v[..])
